@@ -88,6 +88,18 @@ chk("C19", "exploration",
     "OrangeParams(A) and OrangeParams(B).", G_NOTE + " Geometries come from bundled files and the direct generator; the construction API source is added with C09.",
     "deterministic simulation: short-read/short-write stream faults + differential replay of navigation", "§5 C19", "G")
 
+chk("C07", "exploration",
+    "k = 2..8 real threads, each building and driving its own Stepper over one shared CoreParams (step collector, calorimeter, "
+    "action/step diagnostics, optional status checker), exactly one runnable under a seeded baton scheduler that may pre-empt at "
+    "every guarded yield point (before every action, in the lazy initialisations, at user actions, between events); static, block "
+    "and dynamic event->stream assignment. Oracle A: per-event per-track histories bitwise equal to the serial single-stream run; "
+    "shared tallies equal the streams' own histories. Oracle B: the binary is built with -fsanitize=thread and the baton hand-off "
+    "(raw futex in an unsanitized translation unit) creates no happens-before edge, so every pair of conflicting accesses not "
+    "ordered by the program's own synchronisation is reported deterministically for the explored schedule.",
+    T_NOTE + " Interleaving granularity is the action; instruction-level races are caught by happens-before analysis, not by "
+    "manifestation. celer-sim's Transporter/Runner driver is not run (OpenMP off).",
+    "deterministic simulation: seeded thread schedules (baton) + serial-equivalence oracle + happens-before race detection", "§5 C07", "T7")
+
 def main():
     checks = []
     for pid in sorted(CHECKS):
@@ -97,7 +109,7 @@ def main():
             "quick_cmd": f"bin/check {pid} quick",
             "thorough_cmd": f"bin/check {pid} thorough",
             "evidence_file": f"evidence/{pid}.json",
-            "replay_cmd_template": ".build/asan/vsim replay {path}",
+            "replay_cmd_template": (".build/tsan/vsim replay {path}" if pid == "C07" else ".build/asan/vsim replay {path}"),
             "engine": "vsim",
             "level_claimed": {"category": c["cat"], "text": c["text"], "design_ref": c["ref"]},
             "level_note": c["note"],
@@ -117,7 +129,7 @@ def main():
             "guard": "CELERITAS_VERIF_SIM",
             "enable": "bin/build.sh configures /repo as a sub-project of /verif/cmake with -DCELERITAS_VERIF_SIM in CMAKE_CXX_FLAGS (builds under /verif/.build/<flavour>)",
             "baseline_off_cmd": "cmake --build /repo/_build -j16 -- -k 0; ctest --test-dir /repo/_build -j8 --timeout 900",
-            "source_commits": ["85a1df8"],
+            "source_commits": ["85a1df8", "4034b91"],
             "add_only": True,
         },
         "engines": [{
